@@ -56,7 +56,7 @@ def meta(tier):
                 'references = .byte name, constants, .org, .memzone, 6 catalogue includes, 6 ill-named labels) up to the depth '
                 'bound, each in two variants (as is / with closing definitions for referenced-but-undefined global and file '
                 'labels, which makes them forward references); expected = value of the unique visible definition or rejection; '
-                'plus labels / constants named like a register under 4 register spellings (lower, upper, mixed case) x 5 positions (must be rejected) and near-miss names (accepted); plus 8 kinds of reference (visible and invisible: other region, other file, cut off by an origin, undefined) x 4 uses x {muted, unmuted} x {main file, included file}; invisible local / file labels inside the brackets of an indirect operand while a global label has the same name without the prefix; non-trivial = history in which one name is defined in two scopes or referenced outside the defining scope; '
+                'plus labels / constants named like a register under 4 register spellings (lower, upper, mixed case) x 5 positions (must be rejected) and near-miss names (accepted); plus 8 kinds of reference (visible and invisible: other region, other file, cut off by an origin, undefined) x 4 uses x {muted, unmuted} x {main file, included file}; every subset of {nm, _nm, .nm} defined x each of the three referenced x 3 places x 2 uses (three different names); invisible local / file labels inside the brackets of an indirect operand while a global label has the same name without the prefix; non-trivial = history in which one name is defined in two scopes or referenced outside the defining scope; '
                 'states = distinct reference label tables',
         'bounds': {'alphabet': [str(s) for s in sigma(0)], 'depth_full': 3 if q else 4, 'depth_core': 4 if q else 5,
                    'core_alphabet': [str(sigma(0)[i]) for i in CORE_IDX],
@@ -154,6 +154,44 @@ def shard(acc, tier, idx, n):
     register_names(acc, idx, n)
     muted_references(acc, idx, n)
     bracketed_references(acc, idx, n)
+    prefix_twins(acc, idx, n)
+
+
+def prefix_twins(acc, idx, n):
+    """nm, _nm and .nm are three different names: every subset of the three defined (the global one in the main file or in an included
+    one), each of the three referenced from the region of the local one, from an included file and from a later region."""
+    ctr = 0
+    kinds = ('nm', '_nm', '.nm')
+    uses = [lambda r: ('data', 1, [('lab', r)]), lambda r: ('data', 2, [('lab+', r, 1)])]
+    for mask, gdef, ref, place, ui in itertools.product(range(8), ('main', 'inc'), kinds, ('same', 'inc', 'after'), range(2)):
+        if gdef == 'inc' and not mask & 1:
+            continue
+        ctr += 1
+        if ctr % n != idx:
+            continue
+        use = uses[ui](ref)
+        main = [('label', 'first'), ('nop',)]
+        if mask & 4:
+            main += [('label', '.nm'), ('nop',)]
+        if mask & 2:
+            main += [('label', '_nm'), ('nop',)]
+        if place == 'same':
+            main.append(use)
+        inc = [('nop',)]
+        if mask & 1 and gdef == 'inc':
+            inc += [('label', 'nm'), ('nop',)]
+        if place == 'inc':
+            inc.append(use)
+        main.append(('include', 'tw.asm'))
+        if mask & 1 and gdef == 'main':
+            main += [('label', 'nm'), ('nop',)]
+        else:
+            main += [('label', 'second'), ('nop',)]
+        if place == 'after':
+            main.append(use)
+        main.append(('data', 1, [0xEE]))
+        run_program(acc, PARAMS, ISA, {'main.asm': main, 'tw.asm': inc}, clause=clause,
+                    nontrivial=('twins', mask, gdef, ref, place, ui), sample=(ctr % 23 == 0))
 
 
 def register_names(acc, idx, n):
